@@ -300,9 +300,21 @@ def run(ctx):
         sb = ctx.eff.effect_blocks(f, {"save_tx_log_entry"})
         held = bool(ob) and bool(sb)
         run.instance(R8, {"fn": pp.short(fid), "obligation": "the batch that saves the cancelled entry also carries the output write (save / delete)", "output writes": len(ob), "entry writes": len(sb)}, held=held)
+        # a transaction has several inputs: the batch that cancels the entry releases all it has locked, not only the
+        # one record the caller is repairing (the others would stay Locked under a cancelled entry until their turn)
+        if fid.startswith(c.LW + "internal::scan::"):
+            rel = [b_ for b_, t_ in cfg.find_calls(f, c.WOB + "save") if vf.has_call(vf.origins(f, t_["a"][1]), c.WB + "iter")]
+            h_rel = bool(rel) and bool(cfg.find_calls(f, c.WB + "iter"))
+            run.instance(R8, {"fn": pp.short(fid), "obligation": "the cancelling batch releases every record the entry still has locked (read from the wallet, saved in the same batch)"}, held=h_rel)
+            if not h_rel:
+                run.finding(Finding(R8, fid, "a scan cancels an entry while repairing one of its outputs and leaves the entry's other inputs Locked until their own turn: a crash in between (or a scanned range that does not reach them) leaves them reserved under a cancelled transaction", site=c.site_of(f, cancels[0][0])))
         if not held:
             run.finding(Finding(R8, fid, "a log entry is cancelled in a batch of its own; the output it refers to is released in a later batch: a crash in between leaves a reserved (or unconfirmed) output whose transaction is cancelled and that no cancel can release", site=c.site_of(f, cancels[0][0])))
     if n8 == 0:
         run.error("C06.R8: no function assigns a *Cancelled entry type (anchor missing)")
+    R9 = "C06.R9"
+    run.rule(R9, "a restore that died between its per-output commits and its last step is finished by the next scan: the index / account step is fed from every output found on chain, whether or not this run had to restore it", floor=1)
+    from .C15 import scan_index_covers_all
+    scan_index_covers_all(ctx, R9)
     run.not_decided += ["that the invariants hold at every crash point of every multi-batch operation (an enumeration over executions); R1-R3 are the structural conditions the code relies on", "LMDB's own atomicity / durability", "file-system semantics of rename/remove"]
     run.assumptions.append(_SUPPLY)
